@@ -188,6 +188,16 @@ theorem FirstWith.fileAt {fs : FS} {fname : Str} {path : List Str} {f : Found}
   have hn : e.name = fname := by simpa using List.find?_some he
   exact ⟨d, es, e, hd, hm, by simp [hn], rfl⟩
 
+theorem lookupDir_mem {fs : FS} {d : Str} {es : List Entry} (h : lookupDir fs d = some es) : (d, es) ∈ fs := by
+  unfold lookupDir at h
+  cases hf : fs.find? (fun p => p.1 == d) with
+  | none => simp [hf] at h
+  | some q =>
+    simp only [hf, Option.some.injEq] at h
+    have h1 := List.mem_of_find?_eq_some hf
+    have h2 : q.1 = d := by simpa using List.find?_some hf
+    cases q; simp_all
+
 /-! ### enumeration of candidates -/
 
 /-- every version string seen so far has a candidate in a directory not later than `i` -/
